@@ -359,8 +359,13 @@ def run_c15(rep, tier):
     ft += [(3, 1, list(p)) for p in itertools.permutations(range(3)) if list(p) != [0, 1, 2]]
     # four states: F=[] in one run (16 unknowns); one fairness set forked over its 16 values
     ft += [(4, 0, None)] + [(4, 1, None, {'f0_%d' % i: v for i, v in enumerate(vals)}) for vals in itertools.product([False, True], repeat=4)]
+    # histories: get_fair_states, add_edge through the structure's own API, get_fair_states again (second answer decided)
+    ft += [(2, 1, None, None, (1, 0)), (2, 2, None, None, (1, 0)), (3, 1, None, None, (2, 0)), (3, 1, None, None, (0, 0)), (3, 2, None, None, (2, 0)), (3, 2, None, None, (1, 1)),
+           (4, 0, None, None, (3, 0))]
     for t, st, r, secs in pmap(mc.fair_states_task, ft):
-        key = 'get_fair_states n=%d |F|=%d order=%s%s' % (t[0], t[1], t[2] or 'identity', (' F0=%s' % ''.join('1' if v else '0' for v in t[3].values())) if len(t) > 3 else '')
+        key = 'get_fair_states n=%d |F|=%d order=%s%s' % (t[0], t[1], t[2] or 'identity', (' F0=%s' % ''.join('1' if v else '0' for v in t[3].values())) if len(t) > 3 and t[3] else '')
+        if len(t) > 4 and t[4]:
+            key += ' history: ask, add_edge%s, ask again' % (tuple(t[4]),)
         if st != 'ok':
             rep.inconclusive('%s: %s' % (key, r))
             continue
